@@ -130,6 +130,8 @@ type Exec struct {
 
 	heapSort map[string]string
 	mapKeySort map[string]string // map value heaps: SMT sort of the key
+	mapTypeIDs map[string]int    // Go map type -> tag (mapTypeTag)
+	mapTagged  map[string]bool   // map terms already tagged in this script
 	heapGoTy map[string]types.Type // field heaps: Go type of the field (for quantified type invariants)
 	epochTop map[int]string
 	epochs   map[int]*epochDef
